@@ -83,10 +83,11 @@ def tolG(lnu, mu):
     if mu == 0:
         return K * EPS * (1.0 + L)
     p = math.exp(min(mu * lnu, 700.0))
-    t = K * EPS * (2.0 * (p + 1.0) / abs(mu) + p * L)
     if abs(mu) <= SWITCH:
-        t += abs(mu) * L * L * max(1.0, p)
-    return t
+        # inside the accepted limit switch the mu = 0 formula is evaluated: its rounding plus the truncation mu L^2 / 2 of the limit
+        # (the cancellation 1 / |mu| of the literal power formula does not occur there)
+        return K * EPS * (1.0 + L) * max(1.0, p) + abs(mu) * L * L * max(1.0, p)
+    return K * EPS * (2.0 * (p + 1.0) / abs(mu) + p * L)
 
 
 def relGinv(y, mu):
@@ -99,10 +100,9 @@ def relGinv(y, mu):
     qf = max(_f(q), 1e-320)
     muf = abs(float(mu))
     lnq = abs(_f(M.log(q)))
-    r = K * EPS * (1.0 + lnq / muf + (1.0 + abs(float(mu) * float(y))) / (muf * qf))
     if muf <= SWITCH:
-        r += muf * float(y) ** 2
-    return r
+        return K * EPS * (1.0 + abs(float(y))) + muf * float(y) ** 2
+    return K * EPS * (1.0 + lnq / muf + (1.0 + abs(float(mu) * float(y))) / (muf * qf))
 
 
 class Ref:
